@@ -155,9 +155,16 @@ def state_wire(s) -> str:
     return wire_list([s["damping"], s.get("radius", 1.0), s.get("down", 0.5)])
 
 
-def make_strategy(spec):
+def make_strategy(spec, positional=False):
     S = pp().optim.strategy
     kind = spec["kind"]
+    if positional:      # same arguments by position (constructor signatures of strategy.py)
+        if kind == "constant":
+            return S.Constant(spec["damping"])
+        if kind == "adaptive":
+            return S.Adaptive(spec["damping"], spec["high"], spec["low"], spec["up"], spec["down"], spec["min"], spec["max"])
+        return S.TrustRegion(spec["radius"], spec["high"], spec["low"], spec["up"], spec["down"], spec["factor"],
+                             spec["min"], spec["max"])
     if kind == "constant":
         return S.Constant(damping=spec["damping"])
     if kind == "adaptive":
@@ -286,6 +293,8 @@ class RecStrategy:
 
     # LM reads .min/.max nowhere; keep attribute access transparent
     def __getattr__(self, name):
+        if name == "inner" or name.startswith("__"):
+            raise AttributeError(name)          # copy / pickle probe special names before `inner` exists
         return getattr(self.inner, name)
 
     def update(self, pg, last, loss, J, D, R, *args, **kwargs):
@@ -306,6 +315,10 @@ class RecStrategy:
 
 class ScriptedFailure(RuntimeError):
     pass
+
+
+class ModelFailure(RuntimeError):
+    """raised by the user's model (scripted) — a user callback failing inside step()"""
 
 
 class TrialLimit(BaseException):
@@ -344,7 +357,7 @@ class RecSolver:
             ev["raised"] = True
             raise ScriptedFailure("scripted solver failure")
         if act[0] == "target":
-            D = act[1](A, b)
+            D = act[1](A, b, self.module)
         else:
             try:
                 D = self.inner(A=A, b=b)
@@ -381,15 +394,25 @@ def build_problem(scn):
         A = (U[:, :kk] * sv) @ V[:, :kk].T
         theta0 = _rand(g, n) * scn["start"]
         b = _rand(g, M, d)
+        frozen, fold = scn.get("frozen"), scn.get("fold_target")
+        off0 = (_rand(g, M, d) * 0.1) if frozen else None
+        bt = b.to(dt)
 
         class Lin(nn.Module):
             def __init__(self):
                 super().__init__()
+                if frozen == "first":
+                    self.off = nn.Parameter(off0.to(dt), requires_grad=False)
                 self.theta = nn.Parameter(theta0.to(dt))
+                if frozen == "last":
+                    self.off = nn.Parameter(off0.to(dt), requires_grad=False)
 
             def forward(self, A):
-                return (A @ self.theta).view(M, d)
-        return Lin(), A.to(dt), b.to(dt)
+                out = (A @ self.theta).view(M, d)
+                if frozen:
+                    out = out + self.off
+                return out - bt if fold else out
+        return Lin(), A.to(dt), (None if fold else bt)
     if fam == "cubic":
         n = scn["n"]
         theta0 = (_rand(g, n) * scn["start"] + 2.0)
@@ -527,7 +550,9 @@ def rho(kspec, x):
 
 def residuals_of(module, inp, target):
     with torch.no_grad():
-        if isinstance(inp, (tuple, list)):
+        if isinstance(inp, dict):
+            out = module(**inp)
+        elif isinstance(inp, (tuple, list)):
             out = module(*inp)
         else:
             out = module(inp)
@@ -664,6 +689,11 @@ def present(t, form):
     if isinstance(t, (tuple, list)):
         parts = [present(x, form) for x in t]
         return type(t)(a for a, _ in parts), (lambda: next((m for m in (c() for _, c in parts) if m), None))
+    if isinstance(t, dict):
+        parts = {k: present(x, form) for k, x in t.items()}
+        return {k: a for k, (a, _) in parts.items()}, (lambda: next((m for m in (c() for _, c in parts.values()) if m), None))
+    if not isinstance(t, torch.Tensor):
+        return t, (lambda: None)            # python scalar
     is_lie = isinstance(t, P.LieTensor)
     base = raw(t)
     buf, view = None, None
@@ -746,6 +776,53 @@ def optimizer_attrs(opt, is_lm, kind=None) -> dict:
     return d
 
 
+ARGNAME = {"lin": "A", "cubic": "x", "rosen": "c", "expfit": "tt", "atan": "c", "so3": "inp", "se3": "inp", "script1d": "x"}
+STRICT = bool(int(__import__("os").environ.get("C08_STRICT", "0")))
+
+
+def km_forward_raise(kf, case):
+    """known-findings matcher: non-atomic step() after the user's model raised during a trial"""
+    return kf.get("site") == "LevenbergMarquardt.step:model.loss" and bool(case.get("fwd_raise"))
+
+
+def km_returned_alias(kf, case):
+    return kf.get("site") == "LevenbergMarquardt.step:return self.loss" and case.get("kind") == "alias-probe"
+
+
+def make_weight(scn, module, inp, dt):
+    """SPD weight for a single-output model: 'dd' (d×d) or 'Mdd' (one block per item)"""
+    spec = scn.get("weight")
+    if not spec:
+        return None, None
+    with torch.no_grad():
+        out = module(**inp) if isinstance(inp, dict) else (module(*inp) if isinstance(inp, (tuple, list)) else module(inp))
+    if isinstance(out, (tuple, list)) or out.dim() < 1:
+        return None, None
+    d = out.shape[-1]
+    g = torch.Generator().manual_seed(scn["fam_seed"] ^ 0x5EED)
+
+    def spd(*batch):
+        a = torch.randn(*batch, d, d, generator=g, dtype=torch.float64) * 0.3
+        return (a @ a.mT + torch.eye(d, dtype=torch.float64) * spec.get("scale", 1.0)).to(dt)
+    shp = tuple(out.shape[:-1]) if spec.get("shape") == "Mdd" else ()
+    w1, w2 = spd(*shp), spd(*shp)
+    where = spec.get("where", "ctor")
+    return (w1 if where in ("ctor", "both") else None), (w2 if where in ("step", "both") else None)
+
+
+def make_corrector(scn, kernels):
+    """explicit corrector object(s) (otherwise LM/GN build FastTriggs from the kernel, or Trivial)"""
+    C = pp().optim.corrector
+    K = pp().optim.kernel
+    spec = scn.get("corrector")
+    if not spec:
+        return None
+    cls = C.FastTriggs if spec == "fast" else C.Triggs
+    ks = kernels if isinstance(kernels, (list, tuple)) else [kernels]
+    cs = [cls(k if k is not None else K.Huber(1.0)) for k in ks]
+    return cs[0] if len(cs) == 1 else cs
+
+
 # ============================================================================ LM / GN scenarios
 
 def make_solver(name):
@@ -782,12 +859,18 @@ def script1d_plan(scn, module):
         if c == "X":
             return ("raise",)
 
-        def target(A, b):
-            th = float(module.t.detach()[0])
+        def target(A, b, mod=None):
+            th = float((mod if mod is not None else module).t.detach()[0])
             if c == "W":
                 t = th * 2 if th != 0 else 1.0
             elif c == "E":
                 t = -th
+            elif c in "UL":
+                # loss θ² a couple of ulps worse (U) / better (L) than the current one: the accept test has no tolerance
+                tt = torch.tensor(abs(th), dtype=A.dtype)
+                nxt = torch.nextafter(tt, torch.tensor(float("inf") if c == "U" else 0.0, dtype=A.dtype))
+                t = float(nxt) * (1.0 if th >= 0 else -1.0)
+                return (torch.tensor([[t]], dtype=A.dtype) - torch.tensor([[th]], dtype=A.dtype))
             else:
                 t = th / 2
             return torch.tensor([[t - th]], dtype=A.dtype)
@@ -799,20 +882,20 @@ class CallLog:
     pass
 
 
-def run_optimizer_scenario(ctx: Ctx, scn, collect, shared_inner=None):
+def run_optimizer_scenario(ctx: Ctx, scn, collect, shared_inner=None, sink=None):
     """runs the scenario on the real code, evaluates the oracles, appends model requests to `collect`.
     Returns number of failures raised by the oracles."""
     n0 = len(ctx.failures)
-    for _ in scenario_steps(ctx, scn, collect, shared_inner):
+    for _ in scenario_steps(ctx, scn, collect, shared_inner, sink):
         pass
     return len(ctx.failures) - n0
 
 
-def scenario_steps(ctx: Ctx, scn, collect, shared_inner=None):
+def scenario_steps(ctx: Ctx, scn, collect, shared_inner=None, sink=None):
     """generator: each `next()` performs one step() call of the scenario with all its oracles (so that several
     optimizers — possibly sharing a strategy object — can be interleaved)"""
     try:
-        yield from _scenario_steps(ctx, scn, collect, shared_inner)
+        yield from _scenario_steps(ctx, scn, collect, shared_inner, sink)
     except (common.InfraError, ScriptedFailure, TrialLimit, GeneratorExit):
         raise
     except Exception as e:
@@ -824,11 +907,19 @@ def scenario_steps(ctx: Ctx, scn, collect, shared_inner=None):
         ctx.fail(scn, f"crash: {type(e).__name__}: {str(e)[:160]} ({where}); {tb.strip().splitlines()[-3].strip()[:160]}")
 
 
-def _scenario_steps(ctx: Ctx, scn, collect, shared_inner=None):
+def _scenario_steps(ctx: Ctx, scn, collect, shared_inner=None, sink=None):
+    import copy as _copy
+    import pickle as _pickle
     P = pp()
     n0 = len(ctx.failures)
     module, inp, target = build_problem(scn)
     pbufs = apply_param_view(module, scn.get("param_view"))
+    # how the single input is handed to step(): tensor / (tensor,) / [tensor] / {name: tensor} / python scalar
+    cont = scn.get("input_container", "tensor")
+    if scn.get("scalar_input") and isinstance(inp, torch.Tensor) and inp.dim() == 0:
+        inp = float(inp)
+    if cont != "tensor" and not isinstance(inp, (tuple, list, dict)) and scn["family"] in ARGNAME:
+        inp = (inp,) if cont == "tuple" else [inp] if cont == "list" else {ARGNAME[scn["family"]]: inp}
     dtype = scn["dtype"]
     eps = EPS[dtype]
     kspec = scn.get("kernel")
@@ -839,15 +930,45 @@ def _scenario_steps(ctx: Ctx, scn, collect, shared_inner=None):
         plan = scn_plan(scn)
     solver = RecSolver(make_solver(scn["solver"]), plan)
     solver.module = module
+    kern = make_kernels(kspec)
+    if scn.get("kernel_wrap") == "list1" and kern is not None and not isinstance(kern, (list, tuple)):
+        kern = [kern]                                   # a list with one kernel serves every output, like the bare kernel
+    corr = make_corrector(scn, kern)
+    w_ctor, w_step = make_weight(scn, module, inp, getattr(torch, scn["dtype"]))
+    positional = scn.get("ctor_style") == "positional"
+    vec = scn.get("vectorize", True)
     if is_lm:
-        strat = RecStrategy(shared_inner if shared_inner is not None else make_strategy(scn["strategy"]))
+        strat = RecStrategy(shared_inner if shared_inner is not None else make_strategy(scn["strategy"], positional))
         strat.module = module
-        opt = P.optim.LM(module, solver=solver, strategy=strat, kernel=make_kernels(kspec), reject=scn["reject"],
-                         min=scn["lm_min"], max=scn["lm_max"], vectorize=scn.get("vectorize", True))
+        if positional:
+            opt = P.optim.LM(module, solver, strat, kern, corr, w_ctor, scn["reject"], scn["lm_min"], scn["lm_max"], vec)
+        else:
+            opt = P.optim.LM(module, solver=solver, strategy=strat, kernel=kern, corrector=corr, weight=w_ctor,
+                             reject=scn["reject"], min=scn["lm_min"], max=scn["lm_max"], vectorize=vec)
     else:
         strat = None
-        opt = P.optim.GN(module, solver=solver, kernel=make_kernels(kspec), vectorize=scn.get("vectorize", True))
+        if positional:
+            opt = P.optim.GN(module, solver, kern, corr, w_ctor, vec)
+        else:
+            opt = P.optim.GN(module, solver=solver, kernel=kern, corrector=corr, weight=w_ctor, vectorize=vec)
     solver.opt = opt
+    call_style = scn.get("call_style", "positional")
+    grad_mode = scn.get("grad_mode")
+    fwd_raise = {int(c): v for c, v in (scn.get("fwd_raise") or [])}      # call -> "pre" | trial index
+    arm = {"phase": None}
+    inner_forward = module.forward
+
+    def guarded_forward(*a, **k):
+        ph = arm["phase"]
+        if ph is not None and ((ph == "pre" and solver.trial == 0) or (ph != "pre" and solver.trial == int(ph) + 1)):
+            arm["phase"] = None
+            raise ModelFailure("scripted failure of the user's model")
+        return inner_forward(*a, **k)
+    if fwd_raise:
+        module.forward = guarded_forward
+    copy_at, copy_what = scn.get("copy_at"), scn.get("copy_what")
+    orig = None
+    frozen0 = [raw(p) if not p.requires_grad else None for p in module.parameters()]
     reject = scn.get("reject", 0)
     solver.limit = reject + 40
     cur_args = [inp, target, "plain"]      # the tensors of the current call (same data; layout may differ from call to call)
@@ -894,6 +1015,21 @@ def _scenario_steps(ctx: Ctx, scn, collect, shared_inner=None):
                     if key == "damping" and "radius" in pg:
                         pg["radius"] = 1.0 / val       # reachable states only
                     prev_pg = None                      # continuity is re-based on the edited group
+        if copy_at is not None and call == copy_at:
+            ctx.count(f"class.copy.{copy_what}")
+            if copy_what == "optimizer":
+                # deep copy of the whole optimizer (model, solver, strategy, param groups, caches); from now on the COPY is
+                # observed, the original keeps being used in between (each must follow its own law)
+                orig = {"opt": opt, "solver": solver}
+                opt = _copy.deepcopy(opt)
+                module, solver, strat = opt.model.model, opt.solver, (opt.strategy if is_lm else None)
+                inner_forward = module.forward
+                pbufs, handed_out, kinds = [], [], lie_kinds(module)
+                pg = opt.param_groups[0]
+            elif is_lm and copy_what in ("strategy-deepcopy", "strategy-copy", "strategy-pickle"):
+                strat.inner = (_copy.deepcopy(strat.inner) if copy_what == "strategy-deepcopy" else
+                               _copy.copy(strat.inner) if copy_what == "strategy-copy" else
+                               _pickle.loads(_pickle.dumps(strat.inner)))
         solver.call, solver.trial = call, 0
         s0, u0 = len(solver.log), (len(strat.log) if strat else 0)
         given = [raw(p) for p in module.parameters()]
@@ -918,9 +1054,29 @@ def _scenario_steps(ctx: Ctx, scn, collect, shared_inner=None):
         if call == 0 and shared_inner is not None:
             ctx.count("class.shared-strategy-object")
         exc = None
-        with contextlib.redirect_stdout(io.StringIO()):
+        if scn.get("input_requires_grad"):
+            for t_ in (list(inp_c.values()) if isinstance(inp_c, dict) else list(inp_c) if isinstance(inp_c, (tuple, list)) else [inp_c]):
+                if isinstance(t_, torch.Tensor) and not isinstance(t_, P.LieTensor) and t_.is_floating_point() and t_.grad_fn is None:
+                    t_.requires_grad_(True)
+        gctx = (torch.enable_grad() if grad_mode == "enable_grad" else torch.no_grad() if grad_mode == "no_grad" else
+                torch.inference_mode() if grad_mode == "inference" else contextlib.nullcontext())
+        snap = {"loss": float(opt.loss) if had_cache else None, "last": float(opt.last) if hasattr(opt, "last") else None,
+                "rc": getattr(opt, "reject_count", None), "pg": pg_state(pg) if is_lm else None}
+        arm["phase"] = fwd_raise.get(call)
+        ctx.count(f"class.call-style.{call_style}") if call == 0 else None
+        with contextlib.redirect_stdout(io.StringIO()), gctx:
             try:
-                ret = opt.step(inp_c, tgt_c)
+                kw = {"weight": w_step} if w_step is not None else {}
+                if call_style == "keyword":
+                    ret = opt.step(input=inp_c, target=tgt_c, **kw)
+                elif call_style == "mixed":
+                    ret = opt.step(inp_c, target=tgt_c, **kw)
+                elif w_step is not None:
+                    ret = opt.step(inp_c, tgt_c, w_step)
+                else:
+                    ret = opt.step(inp_c, tgt_c)
+            except ModelFailure:
+                exc = "model"
             except TrialLimit:
                 ctx.fail(scn, f"trials: a call made more than {reject + 40} trials with reject={reject} (at most reject+1 allowed); "
                               f"the loop does not terminate (call {call})")
@@ -936,9 +1092,40 @@ def _scenario_steps(ctx: Ctx, scn, collect, shared_inner=None):
                     exc = e              # natural failure of a real solver inside GN (LM catches everything)
                 else:
                     raise
+        arm["phase"] = None
         if exc == "abandon":
             ctx.count("abandoned.non-finite")
             break
+        if exc == "model":
+            # a user callback (the model's forward) raised inside step(): the call must be atomic
+            phase = fwd_raise.get(call)
+            ctx.count(f"class.model-raise.{'pre' if phase == 'pre' else 'trial'}")
+            now = [raw(p) for p in module.parameters()]
+            moved = param_dist(now, given) != 0.0
+            state_changed = []
+            if hasattr(opt, "loss") != had_cache or (had_cache and float(opt.loss) != snap["loss"]):
+                state_changed.append("optimizer.loss")
+            if is_lm and pg_state(pg) != snap["pg"]:
+                state_changed.append("param group")
+            if sink is not None:
+                sink.append({"ret": "exc:model", "params": now})
+            if phase == "pre":
+                if moved or state_changed:
+                    fail(f"atomic: the model raised before the first trial of call {call}; parameters moved: {moved}, changed: {state_changed}")
+                continue            # the caller catches the exception and simply calls step() again
+            t_now = float(tl())
+            consistent = (not moved and not state_changed) or (hasattr(opt, "loss") and not far(float(opt.loss), t_now, 64 * eps * abs(t_now) + 1e-300, dtype))
+            ctx.count(f"probe.atomic-after-model-raise-in-trial={consistent}")
+            if not consistent:
+                msg = (f"atomic: the model raised while the loss of trial {phase} was evaluated (call {call}): the parameters stay at the "
+                       f"trial point (moved: {moved}) but optimizer.loss = {float(opt.loss) if hasattr(opt, 'loss') else None!r} is the loss of the "
+                       f"old parameters (loss at the parameters left behind: {t_now!r})")
+                if STRICT:
+                    ctx.fail(scn, msg, known_matcher=km_forward_raise)
+                elif not any(n_.startswith("probe: atomic") for n_ in ctx.notes):
+                    ctx.notes.append("probe: " + msg + " [observation, see notes/C08.md; C08_STRICT=1 makes it a verdict]")
+                return              # the cache is now stale by construction: nothing further can be checked
+            continue
         sol = solver.log[s0:]
         ups = strat.log[u0:] if strat else []
         final = [raw(p) for p in module.parameters()]
@@ -952,6 +1139,23 @@ def _scenario_steps(ctx: Ctx, scn, collect, shared_inner=None):
             ctx.count("abandoned.non-finite")
             break
         tol_loss = lambda v: 64 * eps * (max(abs(v), getattr(v, "scale", 0.0)) + 1e-300) + 2 * drift + 2 * getattr(v, "lay", 0.0)
+        if sink is not None:
+            sink.append({"ret": (float(ret) if exc is None else f"exc:{type(exc).__name__}"), "params": final,
+                         "pg": pg_state(pg) if is_lm else None, "rc": getattr(opt, "reject_count", None),
+                         "last": float(opt.last) if hasattr(opt, "last") else None, "ntr": ntr})
+        for fz, now_ in zip(frozen0, final):
+            if fz is not None and not torch.equal(fz, now_):
+                fail(f"frozen: a parameter with requires_grad=False was changed by step() (call {call})")
+        if orig is not None:
+            # the original optimizer keeps being used between the calls of its copy
+            orig["solver"].call, orig["solver"].trial = call, 0
+            with contextlib.redirect_stdout(io.StringIO()):
+                try:
+                    r_o = float(orig["opt"].step(inp_c, tgt_c))
+                except (ScriptedFailure, Exception) as e_:
+                    r_o = f"exc:{type(e_).__name__}"
+            if sink is not None:
+                sink[-1]["orig_ret"] = r_o
         tol_cache = lambda v: tol_loss(v) + 2 * layout_slack
 
         # ---- purity of the caller's tensors (views / slices of larger buffers), of parameter buffers outside the
@@ -1121,8 +1325,10 @@ def _scenario_steps(ctx: Ctx, scn, collect, shared_inner=None):
             if "D" in ev and up["params"] is not None:
                 off = 0
                 dflat = ev["D"].double().flatten()
-                for kd_, b_, t_ in zip(kinds, ev["params"], up["params"]):
+                for kd_, b_, t_, fz_ in zip(kinds, ev["params"], up["params"], frozen0):
                     nel = b_.numel()
+                    if fz_ is not None:
+                        continue            # not trainable: no slice of D
                     if kd_ is None and off + nel <= dflat.numel():
                         want = b_.double().flatten() + dflat[off:off + nel]
                         err = (t_.double().flatten() - want).abs()
